@@ -45,6 +45,10 @@ type sessionPlan struct {
 	LenDown  uint64        `json:"len_down"`
 	Carriers []carrierPlan `json:"carriers"` // after the list: healthy carriers
 	IPs      []string      `json:"client_ips"`
+	// BridgeCloses: the bridge side closes its connection as soon as it has
+	// written everything (what server.go does when the ORPort is done), while
+	// the client is still reading and a carrier may be dying with the tail
+	BridgeCloses bool `json:"bridge_closes_after_writing,omitempty"`
 
 	// observations (guarded by mu)
 	mu                       sync.Mutex
@@ -341,6 +345,10 @@ func (s *e2eServer) handle(conn net.Conn) {
 			}
 			off += n
 		}
+		if plan.BridgeCloses {
+			conn.Close()
+			s.res.Obs("bridge_side_closed_right_after_writing", 1)
+		}
 	}()
 	if plan.LenUp == 0 {
 		go func() {
@@ -388,7 +396,7 @@ func (s *e2eServer) handle(conn net.Conn) {
 	}
 	<-wdone
 	plan.mu.Lock()
-	if rerr != nil && rerr != io.EOF {
+	if rerr != nil && rerr != io.EOF && !plan.BridgeCloses {
 		plan.serverErr = rerr.Error()
 	}
 	plan.mu.Unlock()
